@@ -37,3 +37,35 @@ def true_false_targets(sw):
     true_t = [sw.j["otherwise"]] + [tg for v, tg in sw.j["targets"] if v != 0]
     false_t = [tg for v, tg in sw.j["targets"] if v == 0]
     return true_t, false_t
+
+
+def loop_exit_kinds(f, cfg=None):
+    """for every iterator loop of f: (next-call term, set of result kinds assigned to the return place on the paths that
+    leave the loop body without exhausting the iterator) — kinds are aggregate variant names ('Some', 'None', 'Ok', 'Err', …)
+    and 'residual' for a `?` propagation."""
+    from cfg import CFG
+    cfg = cfg or CFG(f)
+    out = []
+    for nx in f.calls():
+        if not (nx.path or "").endswith("::next") or nx.target is None or not cfg.reaches(nx.bb, nx.bb):
+            continue
+        sw = cfg.blocks[nx.target].term
+        if sw.k != "switch":
+            continue
+        some = [tg for v, tg in sw.j["targets"] if v == 1]
+        if not some:
+            continue
+        region = cfg.reach_from(some[0], cut={nx.bb})
+        body = {x for x in region if cfg.reaches(x, nx.bb)}
+        exits = [x for x in region - body if any(p in body for p in cfg.pred[x]) and not cfg.diverges(x) and cfg.blocks[x].term.k != "unreachable"]
+        kinds = {}
+        for x in exits:
+            for b in cfg.reach_from(x):
+                for s in cfg.blocks[b].stmts:
+                    if s.lhs.local == 0 and not s.lhs.proj and s.rv.k == "agg" and s.rv.j.get("variant"):
+                        kinds.setdefault(s.rv.j["variant"], s.span)
+                t = cfg.blocks[b].term
+                if t.k == "call" and (t.path or "").endswith("from_residual") and t.dest is not None and t.dest.local == 0:
+                    kinds.setdefault("residual", t.span)
+        out.append((nx, kinds))
+    return out
